@@ -151,6 +151,9 @@ class C19(Machine):
             cfg["nsi"] = a.choice((True, False))
             cfg["sources"] = self._subset(a, n)
             cfg["targets"] = self._subset(a, n)
+            # one long-lived object: serial call, new node weights, then the
+            # same call distributed and serial
+            cfg["reweigh"] = a.choice((None, None, "unit", "new"))
         else:
             cfg["kernel"] = a.choice(("newman", "nsi_newman", "arenas"))
             cfg["size"] = self._size(a, n)
@@ -427,6 +430,28 @@ class C19(Machine):
             R.violate(tag + "nsi_betweenness|" + kind_,
                       f"pool != serial: {why}; cpu_count={cfg['cpu_count']} "
                       f"targets={cfg['targets']} sources={cfg['sources']}")
+        if cfg.get("reweigh") and ok:
+            # the same comparison on one object that has already answered
+            # serially and was given other node weights since
+            R.probe("pool_after_reweighting")
+            net = mk()
+            C.call(lambda: net.nsi_betweenness(parallelize=False, **kw))
+            net.node_weights = None if cfg["reweigh"] == "unit" else \
+                1.0 + 0.5 * np.arange(n)[::-1]
+            NW.get_context, NW.cpu_count = pw.get_context, pw.cpu_count
+            try:
+                got2 = C.call(lambda: net.nsi_betweenness(parallelize=True,
+                                                          **kw))
+            finally:
+                NW.get_context, NW.cpu_count = saved
+            serial2 = C.call(lambda: net.nsi_betweenness(parallelize=False,
+                                                         **kw))
+            ok2, why2 = C.same(got2, serial2, (1e-10, 1e-12))
+            R.trace.append(("pool2", C.digest_of(got2)))
+            if not ok2:
+                R.violate(tag + "nsi_betweenness|differs-after-reweighting",
+                          f"on one object, after node_weights were set to "
+                          f"{cfg['reweigh']!r}: pool != serial: {why2}")
         return R.as_dict()
 
     # ---- protocol workload: harness master over the real submit/get calls
